@@ -448,7 +448,86 @@ var FaultSink func(entry string, p *path.Path, doc any, o Opts, faults []string)
 
 // Call runs one entry point under a monitor and recover().
 func Call(entry string, p *path.Path, doc any, o Opts) *Out {
-	return CallMonitored(entry, p, doc, o, NewMon())
+	out := CallMonitored(entry, p, doc, o, NewMon())
+	if entry == "query" && EntryMonitor && !NoSharedAtomics {
+		entrySeq++
+		if entrySeq%8 == 0 {
+			entryCrossCheck(p, doc, o, out)
+		}
+	}
+	return out
+}
+
+// EntryMonitor (single-threaded checks): every eighth Query call that succeeds
+// without WithSilent - a complete, error-free evaluation - on inputs whose
+// traversal order is determined (no object with several members, no
+// .keyvalue()) is followed by First and Exists on the same inputs: First
+// returns the first item (nil for none), Exists says whether there is one.
+// A disagreement is reported like a hook fault, whatever property's workload
+// issued the call.
+var EntryMonitor bool
+var entrySeq int
+
+func entryCrossCheck(p *path.Path, doc any, o Opts, q *Out) {
+	if q.Class != OK || o.Silent || multiMember(doc) {
+		return
+	}
+	for _, v := range o.Vars {
+		if multiMember(v) {
+			return
+		}
+	}
+	txt := ""
+	func() {
+		defer func() { _ = recover() }()
+		txt = p.String()
+	}()
+	if txt == "" || strings.Contains(txt, "keyvalue") {
+		return
+	}
+	f := CallMonitored("first", p, doc, o, NewMon())
+	e := CallMonitored("exists", p, doc, o, NewMon())
+	if f.Class == Panic || e.Class == Panic {
+		return
+	}
+	var want any
+	if len(q.Items) > 0 {
+		want = q.Items[0]
+	}
+	var faults []string
+	if f.Class != OK || CanonTyped(f.Val) != CanonTyped(want) {
+		faults = append(faults, fmt.Sprintf("entry-points-disagree: Query succeeded with %s but First returned %s", q.Summary(), f.Summary()))
+	}
+	if e.Class != OK || e.Bool != (len(q.Items) > 0) {
+		faults = append(faults, fmt.Sprintf("entry-points-disagree: Query succeeded with %d items but Exists returned %s", len(q.Items), e.Summary()))
+	}
+	if len(faults) > 0 {
+		q.Faults = append(q.Faults, faults...)
+		if FaultSink != nil {
+			FaultSink("query", p, doc, o, faults)
+		}
+	}
+}
+
+func multiMember(v any) bool {
+	switch x := v.(type) {
+	case map[string]any:
+		if len(x) >= 2 {
+			return true
+		}
+		for _, e := range x {
+			if multiMember(e) {
+				return true
+			}
+		}
+	case []any:
+		for _, e := range x {
+			if multiMember(e) {
+				return true
+			}
+		}
+	}
+	return false
 }
 
 // CallMonitored is Call with a caller-provided monitor (cancellation, yields).
